@@ -175,107 +175,220 @@ def parse_always(toks, lo, hi, label):
 
 # ----------------------------------------------------------------------------- extraction
 
-def extract(repo):
-    sel = toks_of(os.path.join(repo, "hw", "floo_route_select.sv"))
-    rt = toks_of(os.path.join(repo, "hw", "floo_router.sv"))
-    comp = toks_of(os.path.join(repo, "hw", "floo_route_comp.sv"))
-    out = {}
-    lo, hi = find_labelled(sel, "gen_xy_routing")
-    out["xy"] = parse_always(sel, lo, hi, "proc_route_sel")
-    # what surrounds the always_comb in that branch (declaration of id_in and the pass-through of the flit)
-    a, b = find_labelled(sel[lo:hi], "proc_route_sel")
-    out["xyRest"] = sel[lo:lo + a - 4] + sel[lo + b + 1:hi]          # minus `always_comb begin : proc_route_sel … end`
-    lo, hi = find_labelled(sel, "gen_consumption")
-    out["src"] = parse_always(sel, lo, hi, "proc_route_sel")
-    lo, hi = find_labelled(sel, "gen_id_table")
-    out["idBlock"] = sel[lo:hi]
-    # parameter default of RouteSelWidth and the condition chain selecting the branches
-    k = sel.index("RouteSelWidth")
-    if sel[k + 1] != "=":
-        raise RtlError("RouteSelWidth has no default")
-    p = P(sel[k + 2:])
-    out["routeSelWidth"] = p.expr()
-    out["branches"] = [sel[i + 1:sel.index(")", i) + 1] for i in range(len(sel) - 3)
-                       if sel[i] == "if" and sel[i + 2] == "RouteAlgo"]
-    # floo_router: the instantiation of floo_route_select and the route masking
-    k = rt.index("floo_route_select")
-    j = k
+def _stmt_end(t, k):
+    """index of the `;` that ends the statement starting at k (parentheses balanced)"""
     depth = 0
+    j = k
     while True:
-        if rt[j] == "(":
+        if t[j] in ("(", "'("):
             depth += 1
-        elif rt[j] == ")":
+        elif t[j] == ")":
             depth -= 1
-        elif rt[j] == ";" and depth == 0:
-            break
+        elif t[j] == ";" and depth == 0:
+            return j
         j += 1
-    out["routerSelect"] = rt[k:j + 1]
-    k = rt.index("NumInputLimited")
-    lo2, hi2 = find_labelled(rt, "gen_inout_identical")
-    # from the localparam to the end of the `if … else if … else` that builds the masked valid/ready
-    j = hi2
-    depth = 0
-    # the statement continues with `else if (…) begin : … end else begin : … end`
-    while rt[j] == "end" and rt[j + 1] == "else":
-        j += 2
-        while rt[j] != "begin":
+
+
+def _statements(toks, words, loops=False):
+    """the statements (split at `;`) that mention one of `words`, without the begin/end/labels before them"""
+    cur = []
+    start = 0
+    for q, t in enumerate(toks):
+        if t == ";":
+            stmt = toks[start:q + 1]
+            if any(x in words for x in stmt):
+                k3 = 0
+                for k4, x in enumerate(stmt):
+                    if x in ("begin", "end", "else") or x == ":":
+                        k3 = k4 + 1
+                cur += stmt[k3:] if k3 < len(stmt) - 1 else stmt
+            elif loops and stmt and (stmt[0] == "for" or "genvar" in stmt):
+                cur += stmt
+            start = q + 1
+    return cur
+
+
+def extract(repo):
+    """every fragment on its own: one that cannot be extracted any more is left empty (and named in `errors`), so
+    that only the theorems about it stop checking"""
+    out = {"errors": []}
+
+    def load(*rel):
+        try:
+            return toks_of(os.path.join(repo, *rel))
+        except (OSError, svtok.TokError) as e:
+            out["errors"].append(f"{'/'.join(rel)}: {e}")
+            return []
+
+    def frag(name, default, fn):
+        try:
+            out[name] = fn()
+        except (RtlError, ValueError, IndexError) as e:
+            out[name] = default
+            out["errors"].append(f"{name}: {type(e).__name__}: {e}")
+
+    sel = load("hw", "floo_route_select.sv")
+    rt = load("hw", "floo_router.sv")
+    comp = load("hw", "floo_route_comp.sv")
+    pk = load("hw", "floo_pkg.sv")
+    chim = [(fn, load("hw", fn)) for fn in ("floo_axi_chimney.sv", "floo_nw_chimney.sv")]
+
+    def xy():
+        lo, hi = find_labelled(sel, "gen_xy_routing")
+        return parse_always(sel, lo, hi, "proc_route_sel")
+    frag("xy", [], xy)
+
+    def xy_rest():
+        # what surrounds the always_comb in that branch (declaration of id_in and the pass-through of the flit)
+        lo, hi = find_labelled(sel, "gen_xy_routing")
+        a, b = find_labelled(sel[lo:hi], "proc_route_sel")
+        return sel[lo:lo + a - 4] + sel[lo + b + 1:hi]    # minus `always_comb begin : proc_route_sel … end`
+    frag("xyRest", [], xy_rest)
+
+    def src():
+        lo, hi = find_labelled(sel, "gen_consumption")
+        return parse_always(sel, lo, hi, "proc_route_sel")
+    frag("src", [], src)
+
+    def id_block():
+        lo, hi = find_labelled(sel, "gen_id_table")
+        return sel[lo:hi]
+    frag("idBlock", [], id_block)
+
+    def width():
+        # parameter default of RouteSelWidth
+        k = sel.index("RouteSelWidth")
+        if sel[k + 1] != "=":
+            raise RtlError("RouteSelWidth has no default")
+        return flat(P(sel[k + 2:]).expr())
+    frag("routeSelWidth", [], width)
+    # the condition chain selecting the branches
+    frag("branches", [], lambda: [sel[i + 1:sel.index(")", i) + 1] for i in range(len(sel) - 3)
+                                  if sel[i] == "if" and sel[i + 2] == "RouteAlgo"])
+    frag("selectAll", [], lambda: list(sel))
+
+    # floo_router: the instantiation of floo_route_select and the route masking
+    def router_select():
+        k = rt.index("floo_route_select")
+        return rt[k:_stmt_end(rt, k) + 1]
+    frag("routerSelect", [], router_select)
+
+    def router_mask():
+        k = rt.index("NumInputLimited")
+        lo2, hi2 = find_labelled(rt, "gen_inout_identical")
+        # from the localparam to the end of the `if … else if … else` that builds the masked valid/ready
+        j = hi2
+        while rt[j] == "end" and rt[j + 1] == "else":
+            j += 2
+            while rt[j] != "begin":
+                j += 1
+            d = 1
             j += 1
-        d = 1
-        j += 1
-        while d:
-            if rt[j] == "begin":
-                d += 1
-            elif rt[j] == "end":
-                d -= 1
-            j += 1
-        j -= 1
-    out["routerMask"] = rt[k - 3:j + 1]
+            while d:
+                if rt[j] == "begin":
+                    d += 1
+                elif rt[j] == "end":
+                    d -= 1
+                j += 1
+            j -= 1
+        return rt[k - 3:j + 1]
+    frag("routerMask", [], router_mask)
+
     # the two conditions under which a route from input `in_route` to output `out_route` is masked
-    a = rt.index("gen_inout_identical")
-    i0 = a
-    while rt[i0] != "if":
-        i0 -= 1
-    p1 = P(rt[i0 + 1:a - 2])
-    out["maskLoop"] = p1.expr()
-    b = rt.index("gen_xy_opt")
-    i1 = b
-    while rt[i1] != "if":
-        i1 -= 1
-    p2 = P(rt[i1 + 1:b - 2])
-    out["maskXY"] = p2.expr()
-    # parameter defaults of floo_router that the masks depend on
-    out["routerDefaults"] = []
-    for nm in ("XYRouteOpt", "NoLoopback"):
-        q = rt.index(nm)
-        out["routerDefaults"] += rt[q - 2:q + 3]
+    def cond_before(label):
+        a = rt.index(label)
+        i0 = a
+        while rt[i0] != "if":
+            i0 -= 1
+        return P(rt[i0 + 1:a - 2]).expr()
+    frag("maskLoop", ("n", 0), lambda: cond_before("gen_inout_identical"))
+    frag("maskXY", ("n", 0), lambda: cond_before("gen_xy_opt"))
+
+    def router_defaults():
+        r = []
+        for nm in ("XYRouteOpt", "NoLoopback"):
+            q = rt.index(nm)
+            r += rt[q - 2:q + 3]
+        return r
+    frag("routerDefaults", [], router_defaults)
+    frag("routerAll", [], lambda: list(rt))
+
+    # the two wrappers that turn three (two) single-channel routers into one AXI (narrow-wide) router: which
+    # ports carry requests, which responses, and in which direction (the whole files)
+    out["axiRouter"] = load("hw", "floo_axi_router.sv")
+    out["nwRouter"] = load("hw", "floo_nw_router.sv")
+
+    # floo_pkg::set_ports (argument order: subordinate enable, then manager enable)
+    def set_ports():
+        q = pk.index("set_ports")
+        j3 = q
+        while pk[j3] != "endfunction":
+            j3 += 1
+        return pk[q - 3:j3 + 1]
+    frag("setPorts", [], set_ports)
+
+    # every statement of the chimneys that mentions the source or destination identity of a flit
+    frag("chimneyIds", [], lambda: [[fn] + _statements(ct, ("dst_id", "src_id", "axi_rsp_src_id", "id_out", "route_out"))
+                                    for fn, ct in chim])
+
     # every instantiation of floo_route_comp in the two chimneys
-    out["chimneyComp"] = []
-    for fn in ("floo_axi_chimney.sv", "floo_nw_chimney.sv"):
-        ct = toks_of(os.path.join(repo, "hw", fn))
-        for q in range(len(ct)):
-            if ct[q] == "floo_route_comp" and ct[q + 1] == "#":
-                j2 = q
-                depth = 0
-                while True:
-                    if ct[j2] in ("(", "'("):
-                        depth += 1
-                    elif ct[j2] == ")":
-                        depth -= 1
-                    elif ct[j2] == ";" and depth == 0:
-                        break
-                    j2 += 1
-                out["chimneyComp"].append([fn] + ct[q:j2 + 1])
-    # floo_route_comp: destination lookup and source-route lookup
-    lo, hi = find_labelled(comp, "gen_table_routing")
-    out["compTable"] = comp[lo:hi]
-    lo, hi = find_labelled(comp, "gen_route")
-    out["compRoute"] = comp[lo:hi]
-    k = comp.index("gen_table_routing")
-    j = k
-    while comp[j] != "if":
-        j -= 1
-    out["compCond"] = comp[j:k - 2]
+    def chimney_comp():
+        r = []
+        for fn, ct in chim:
+            for q in range(len(ct) - 1):
+                if ct[q] == "floo_route_comp" and ct[q + 1] == "#":
+                    r.append([fn] + ct[q:_stmt_end(ct, q) + 1])
+        return r
+    frag("chimneyComp", [], chimney_comp)
+
+    # floo_route_comp: destination lookup and source-route lookup; and the whole (small) file: which generate
+    # branch is taken when
+    def comp_table():
+        lo, hi = find_labelled(comp, "gen_table_routing")
+        return comp[lo:hi]
+    frag("compTable", [], comp_table)
+
+    def comp_route():
+        lo, hi = find_labelled(comp, "gen_route")
+        return comp[lo:hi]
+    frag("compRoute", [], comp_route)
+
+    def comp_cond():
+        k = comp.index("gen_table_routing")
+        j = k
+        while comp[j] != "if":
+            j -= 1
+        return comp[j:k - 2]
+    frag("compCond", [], comp_cond)
+    frag("compAll", [], lambda: list(comp))
+
+    # the mesh testbenches: how a DMA node finds its job file and its memory window
+    def tb_jobs():
+        r = []
+        for fn in ("tb_floo_axi_mesh.sv", "tb_floo_nw_mesh.sv"):
+            tt = toks_of(os.path.join(repo, "hw", "tb", fn))
+            r.append([fn] + _statements(tt, ("JobId", "MemBaseAddr", "Index"), loops=True))
+        return r
+    try:
+        out["tbJobs"] = tb_jobs()
+    except (OSError, svtok.TokError, RtlError, ValueError, IndexError) as e:
+        out["tbJobs"] = []
+        out["errors"].append(f"tbJobs: {e}")
     return out
+
+
+def flat(e):
+    # the parameter default as tokens again
+    if e[0] == "call":
+        return [e[1], "("] + [t for a in e[2] for t in flat(a)] + [")"]
+    if e[0] == "v":
+        return [e[1]]
+    if e[0] == "n":
+        return [str(e[1])]
+    if e[0] == "bin":
+        return flat(e[2]) + [e[1]] + flat(e[3])
+    raise RtlError("RouteSelWidth default too complicated")
+
 
 
 # ----------------------------------------------------------------------------- Lean rendering
@@ -290,6 +403,10 @@ OPS = {"+": "add", "-": "sub", "*": "mul", "==": "eq", "!=": "ne", "<": "lt", "<
 
 def ident(name):
     return "".join(c if c.isalnum() else "_" for c in name)
+
+
+def ident_safe(s):
+    return ''.join(c if 32 <= ord(c) < 127 else '?' for c in s).replace('-/', '- /')
 
 
 def names_of(stmts):
@@ -370,11 +487,25 @@ def toks_lean(ts, ind=4):
     return "[\n" + "\n".join(lines) + "\n" + " " * (ind - 2) + "]"
 
 
+FLAT_FIELDS = ['xyRest', 'routeSelWidth', 'idBlock', 'routerSelect', 'routerMask', 'compCond', 'compTable', 'compRoute', 'routerDefaults', 'compAll', 'setPorts', 'axiRouter', 'nwRouter', 'selectAll', 'routerAll']
+NESTED_FIELDS = ['branches', 'chimneyComp', 'chimneyIds', 'tbJobs']
+
+
+def frag_def(name, ts, chunk=200):
+    """`def name : List String := …`; long lists as a concatenation of separately defined short ones (the elaborator
+    recurses once per element of a literal)"""
+    if len(ts) <= chunk:
+        return f"def {name} : List String := {toks_lean(ts)}\n\n"
+    parts = [ts[i:i + chunk] for i in range(0, len(ts), chunk)]
+    out = "".join(f"def {name}_{i} : List String := {toks_lean(p)}\n\n" for i, p in enumerate(parts))
+    return out + f"def {name} : List String := " + " ++ ".join(f"{name}_{i}" for i in range(len(parts))) + "\n\n"
+
+
 def lean_file(repo, f):
     def block(name, ty):
         ns = names_of(f[name])
         enum = f"/-- the names `{name}` mentions (`.` written as `_`) -/\ninductive {ty} where\n" + \
-            "\n".join(f"  | {ident(n)}" for n in ns) + "\n  deriving DecidableEq, Repr\n"
+            "\n".join(f"  | {ident(n)}" for n in (ns or ["nothing_"])) + "\n  deriving DecidableEq, Repr\n"
         body = "[\n" + ",\n".join(rs_lean(s, 4, ty) for s in f[name]) + "\n  ]"
         return enum, body
     def eblock(names, ty, what):
@@ -384,29 +515,25 @@ def lean_file(repo, f):
                 if x not in ns:
                     ns.append(x)
         enum = f"/-- the names {what} mention -/\ninductive {ty} where\n" + \
-            "\n".join(f"  | {ident(n)}" for n in ns) + "\n  deriving DecidableEq, Repr\n"
+            "\n".join(f"  | {ident(n)}" for n in (ns or ["nothing_"])) + "\n  deriving DecidableEq, Repr\n"
         return enum
     mask_enum = eblock(["maskLoop", "maskXY"], "MaskName", "the masking conditions of floo_router")
     xy_enum, xy_body = block("xy", "XyName")
     src_enum, src_body = block("src", "SrcName")
-    p = []
+    frag_defs = ""
+    for n in FLAT_FIELDS:
+        frag_defs += frag_def("frag_" + n, f[n])
+    for n in NESTED_FIELDS:
+        for i, b in enumerate(f[n]):
+            frag_defs += frag_def(f"frag_{n}_{i}", b)
+        frag_defs += f"def frag_{n} : List (List String) := [" + ", ".join(f"frag_{n}_{i}" for i in range(len(f[n]))) + "]\n\n"
+    errs = ''.join(f'-- NOT EXTRACTED: {ident_safe(e)}\n' for e in f['errors'])
 
-    def flat(e):
-        # the parameter default as tokens again
-        if e[0] == "call":
-            return [e[1], "("] + [t for a in e[2] for t in flat(a)] + [")"]
-        if e[0] == "v":
-            return [e[1]]
-        if e[0] == "n":
-            return [str(e[1])]
-        if e[0] == "bin":
-            return flat(e[2]) + [e[1]] + flat(e[3])
-        raise RtlError("RouteSelWidth default too complicated")
     body = f"""/-
   GENERATED by harness/rtl_tie.py from hw/floo_route_select.sv, hw/floo_router.sv, hw/floo_route_comp.sv of the
   working tree.  Do not edit: regenerated on every check run.
 -/
-import FlooVerif.Rtl
+{errs}import FlooVerif.Rtl
 namespace FlooVerif.Gen
 open FlooVerif.Rtl
 
@@ -425,18 +552,27 @@ def rtlMaskLoop : RE MaskName := {re_lean(f['maskLoop'], 'MaskName')}
 /-- … or, under XY routing, if it would turn from North/South to East/West -/
 def rtlMaskXY : RE MaskName := {re_lean(f['maskXY'], 'MaskName')}
 
+{frag_defs}
 def rtlFacts : RtlFacts where
-  xyRest := {toks_lean(f['xyRest'])}
-  routeSelWidth := {toks_lean(flat(f['routeSelWidth']))}
-  branches := [{', '.join(toks_lean(b, 6) for b in f['branches'])}]
-  idBlock := {toks_lean(f['idBlock'])}
-  routerSelect := {toks_lean(f['routerSelect'])}
-  routerMask := {toks_lean(f['routerMask'])}
-  compCond := {toks_lean(f['compCond'])}
-  compTable := {toks_lean(f['compTable'])}
-  compRoute := {toks_lean(f['compRoute'])}
-  routerDefaults := {toks_lean(f['routerDefaults'])}
-  chimneyComp := [{', '.join(toks_lean(b, 6) for b in f['chimneyComp'])}]
+  xyRest := frag_xyRest
+  routeSelWidth := frag_routeSelWidth
+  idBlock := frag_idBlock
+  routerSelect := frag_routerSelect
+  routerMask := frag_routerMask
+  compCond := frag_compCond
+  compTable := frag_compTable
+  compRoute := frag_compRoute
+  routerDefaults := frag_routerDefaults
+  compAll := frag_compAll
+  setPorts := frag_setPorts
+  axiRouter := frag_axiRouter
+  nwRouter := frag_nwRouter
+  selectAll := frag_selectAll
+  routerAll := frag_routerAll
+  branches := frag_branches
+  chimneyComp := frag_chimneyComp
+  chimneyIds := frag_chimneyIds
+  tbJobs := frag_tbJobs
 
 end FlooVerif.Gen
 """
